@@ -7,6 +7,6 @@ run(){ b=$1; p=$2; out=$(mktemp -d); VERIF_REPO=/tmp/benignmx/$b VERIF_EVIDENCE_
   echo "$b $p exit=$rc $(grep -E 'VIOLATION|UNDECIDED|CHECKER' $out/log | head -2 | cut -c1-200 | tr '\n' '|')"; rm -rf $out; }
 export -f run
 for f in /verif/seeded/benign/*.diff; do b=$(basename $f .diff); for p in C01 C02 C03 C04 C05 C06 C07 C08 C09 C10 C11 C12 C13 C14 C15 C16 C17 C18 C19 C20; do echo "$b $p"; done; done \
-  | xargs -P 5 -L 1 bash -c 'run $0 $1' | sort > /verif/seeded/benign/results.txt
+  | xargs -P 8 -L 1 bash -c 'run $0 $1' | sort > /verif/seeded/benign/results.txt
 rm -rf $S
 grep -c "exit=0" /verif/seeded/benign/results.txt; grep -v "exit=0" /verif/seeded/benign/results.txt
